@@ -241,6 +241,30 @@ def scribble(o, _seen=None, _depth=0):
                 pass
 
 
+def transplant(dst, src, _depth=0):
+    """give the object `dst` the field values of `src` (same class), field by field and recursively through nested attrs objects
+    that both hold - what a caller does who re-uses one request / descriptor object for the next item.  What `dst` then
+    serialises to must be what a freshly built `src` serialises to: the encoding is a function of the current field values."""
+    try:
+        import attr
+    except Exception:  # noqa
+        return
+    if _depth > 6 or type(dst) is not type(src) or not attr.has(type(dst)):
+        return
+    for f in attr.fields(type(dst)):
+        try:
+            a, b = getattr(dst, f.name), getattr(src, f.name)
+        except Exception:  # noqa
+            continue
+        if a is not None and b is not None and type(a) is type(b) and not isinstance(a, type) and attr.has(type(a)) and _depth < 6:
+            transplant(a, b, _depth + 1)
+            continue
+        try:
+            setattr(dst, f.name, b)
+        except Exception:  # noqa
+            pass
+
+
 def hx(b):
     if b is None:
         return "none"
